@@ -28,12 +28,18 @@ def drive(tier, tag):
     for ch in CHAINS:
         bitcoin.SelectParams(ch)
         h20 = gen.rbytes(r, 20)
-        texts[ch] = [str(CBitcoinAddress.from_scriptPubKey(CScript(s))) for s in
-                     (b"\x76\xa9\x14" + h20 + b"\x88\xac", b"\xa9\x14" + h20 + b"\x87", b"\x00\x14" + h20, b"\x00\x20" + gen.rbytes(r, 32))]
+        texts[ch] = []
+        for s_ in (b"\x76\xa9\x14" + h20 + b"\x88\xac", b"\xa9\x14" + h20 + b"\x87", b"\x00\x14" + h20, b"\x00\x20" + gen.rbytes(r, 32)):
+            kk_, t_ = call(lambda: str(CBitcoinAddress.from_scriptPubKey(CScript(s_))))
+            if kk_ == "ret" and isinstance(t_, str):      # (a failure here is reported by the chain.address records below)
+                texts[ch].append(t_)
         p = M.msg_ping()
         p.nonce = r.getrandbits(64)
         frames[ch] = p.to_bytes()
     bitcoin.SelectParams("mainnet")
+    pool20 = [gen.rbytes(r, 20) for _ in range(2)]
+    pool32 = [gen.rbytes(r, 32) for _ in range(2)]
+    secrets = [gen.rbytes(r, 32) for _ in range(2)]
     nh = 6 if tier == "quick" else 60
     for _ in range(nh):
         tid = R.new_tid()
@@ -72,8 +78,9 @@ def drive(tier, tag):
                 kk, res = call(MoneyRange, v)
                 R.add("chain.money", {"v": le_signed(v, 8)}, {"res": bool(res) if kk == "ret" else "exc"}, tid=tid, k=k)
             elif c == 7:
-                h20 = gen.rbytes(r, 20)
-                spk = r.choice([b"\x76\xa9\x14" + h20 + b"\x88\xac", b"\xa9\x14" + h20 + b"\x87", b"\x00\x14" + h20, b"\x00\x20" + gen.rbytes(r, 32), b"\x51"])
+                h20 = r.choice(pool20 + [gen.rbytes(r, 20)])             # recurring payloads: the same value under several chains
+                spk = r.choice([b"\x76\xa9\x14" + h20 + b"\x88\xac", b"\xa9\x14" + h20 + b"\x87", b"\x00\x14" + h20,
+                                b"\x00\x20" + r.choice(pool32 + [gen.rbytes(r, 32)]), b"\x51"])
                 kk, a = call(lambda: str(CBitcoinAddress.from_scriptPubKey(CScript(spk))))
                 R.add("chain.address", {"spk": b2l(spk)}, {"k": "ret", "text": text(a)} if kk == "ret" else dict(exc_info(a), k="exc"), tid=tid, k=k)
             elif c == 8:
@@ -87,7 +94,7 @@ def drive(tier, tag):
                 R.add("chain.parse", {"text": text(t)}, v if kk == "ret" else dict(exc_info(v), k="exc"), tid=tid, k=k)
             else:
                 if r.random() < 0.5:
-                    sec, comp = gen.rbytes(r, 32), bool(r.getrandbits(1))
+                    sec, comp = r.choice(secrets + [gen.rbytes(r, 32)]), bool(r.getrandbits(1))
                     kk, v = call(lambda: str(CBitcoinSecret.from_secret_bytes(sec, comp)))
                     R.add("chain.wif", {"secret": b2l(sec), "compressed": comp}, {"k": "ret", "text": text(v)} if kk == "ret" else dict(exc_info(v), k="exc"), tid=tid, k=k)
                 else:
